@@ -884,7 +884,14 @@ func ensurePathExists(pd *container, path string, options *ApplyOptions) error {
 			// A digit string with a sign or a leading zero ("+1", "01") is
 			// not an array index (RFC 6901) but a member name.
 			if isIndexToken(parts[pi+1]) {
-				arrIndex, _ = strconv.Atoi(parts[pi+1]) // 0 for "-"
+				arrIndex = 0
+				if parts[pi+1] != "-" {
+					arrIndex, err = strconv.Atoi(parts[pi+1])
+					if err != nil {
+						// digits only, but more of them than an int holds
+						return fmt.Errorf("Unable to ensure path for invalid index: %s: %w", parts[pi+1], ErrInvalidIndex)
+					}
+				}
 				if arrIndex < 0 {
 
 					if !options.SupportNegativeIndices {
